@@ -1210,3 +1210,397 @@ Proof.
     unfold cnt_entered. cbn [cont set_code entered]. rewrite filter_app, app_length. cbn [filter snd].
     psimp. destruct (is_once_rid rid h); cbn; lia.
 Qed.
+
+Lemma once_inv_run P cfg : forall sched s, winv s -> once_inv s -> once_inv (fst (run P cfg s sched)).
+Proof.
+  induction sched as [|a r IH]; intros s I O; cbn [run]; [exact O|].
+  destruct (mstep P cfg s a) as [[s' ls]|] eqn:E.
+  - specialize (IH s' (winv_step P cfg s a s' ls I E) (once_inv_step P cfg s a s' ls I O E)). destruct (run P cfg s' r). exact IH.
+  - apply IH; assumption.
+Qed.
+
+(* over every schedule of every program: a Once registration is entered at most once in the life of the bus,
+   and only after its flag has been claimed *)
+Theorem once_at_most_once P cfg s : reachable P cfg s ->
+  forall rid, cnt_entered rid s <= 1 /\ (cnt_entered rid s = 1 -> memb rid (executed s) = true).
+Proof.
+  intros [threads [sched ->]] rid.
+  assert (O: once_inv (fst (run P cfg (init_state threads) sched))).
+  { apply once_inv_run; [apply winv_init|]. intros r. unfold cnt_entered, allow, init_state. cbn [entered executed code].
+    assert (H: forall k (ts : list (list action)), gtotal (pend r) (combine (seq k (length ts)) (map acts ts)) = 0).
+    { intros k ts. revert k. induction ts as [|t ts IH]; intros k; [reflexivity|].
+      cbn [length seq map combine]. rewrite gtotal_cons, pend_acts, IH. reflexivity. }
+    rewrite H. cbn. lia. }
+  specialize (O rid). unfold allow in O. destruct (memb rid (executed _)); split; try lia; try reflexivity.
+Qed.
+
+(* ================================================================== *)
+(* C07: invocations of a Sequential handler never overlap, over every schedule *)
+Definition is_lock (i : instr) : bool := match i with ILock _ => true | _ => false end.
+Definition lockfree (c : list instr) : Prop := forall i, In i c -> is_lock i = false.
+
+(* the locks an actor holds, read off its lock-free code: a pending deferred unlock, or a recover marker of a
+   Sequential handler whose body is running *)
+Definition held_i (rid : nat) (i : instr) : nat :=
+  match i with
+  | IUnlock h => if Nat.eqb (r_id h) rid then 1 else 0
+  | IRecover _ h _ => if h_seq (r_spec h) && Nat.eqb (r_id h) rid then 1 else 0
+  | _ => 0
+  end.
+Definition heldc (rid : nat) (c : list instr) : nat := fold_right (fun i n => held_i rid i + n) 0 c.
+
+(* instructions that neither take, hold nor release a handler lock *)
+Definition plain_i (i : instr) : bool :=
+  match i with ILock _ | IUnlock _ | IRecover _ _ _ => false | _ => true end.
+Definition plain (c : list instr) : Prop := forall i, In i c -> plain_i i = true.
+
+(* a call of a Sequential handler that has not taken the lock yet: ILock h, then only plain instructions up to
+   its own recover marker; it can only sit at the very front of an actor's code *)
+Definition block_tail (h : regn) (c : list instr) : Prop :=
+  exists mid p async r, c = mid ++ IRecover p h async :: r /\ plain mid /\ lockfree r /\ h_seq (r_spec h) = true.
+
+Inductive wfl : list instr -> Prop :=
+| wfl_free c : lockfree c -> wfl c
+| wfl_lock h c : block_tail h c -> wfl (ILock h :: c)
+| wfl_start p h async c : block_tail h c -> wfl (IHandlerStart p h async :: ILock h :: c).
+
+(* the locks held by code that may start with a pending block: the block itself holds nothing *)
+Definition held (rid : nat) (c : list instr) : nat :=
+  match c with
+  | ILock h :: c' | IHandlerStart _ _ _ :: ILock h :: c' => heldc rid c' - (if Nat.eqb (r_id h) rid then 1 else 0)
+  | _ => heldc rid c
+  end.
+
+Lemma heldc_app rid a b : heldc rid (a ++ b) = heldc rid a + heldc rid b.
+Proof. induction a as [|x a IH]; [reflexivity|]. unfold heldc in *. cbn. rewrite IH. lia. Qed.
+Lemma heldc_cons rid x l : heldc rid (x :: l) = held_i rid x + heldc rid l.
+Proof. reflexivity. Qed.
+Lemma heldc_plain rid c : plain c -> heldc rid c = 0.
+Proof.
+  induction c as [|i c IH]; intros Hp; [reflexivity|]. rewrite heldc_cons, IH by (intros x Hx; apply Hp; right; exact Hx).
+  specialize (Hp i (or_introl eq_refl)). destruct i; cbn in *; try discriminate; reflexivity.
+Qed.
+Lemma plain_lockfree c : plain c -> lockfree c.
+Proof. intros Hp i Hi. specialize (Hp i Hi). destruct i; cbn in *; try discriminate; reflexivity. Qed.
+Lemma lockfree_app a b : lockfree a -> lockfree b -> lockfree (a ++ b).
+Proof. intros Ha Hb i Hi. apply in_app_or in Hi. destruct Hi; [apply Ha|apply Hb]; assumption. Qed.
+Lemma lockfree_cons i c : is_lock i = false -> lockfree c -> lockfree (i :: c).
+Proof. intros Hi Hc x [<-|Hx]; [exact Hi|apply Hc, Hx]. Qed.
+Lemma lockfree_tail i c : lockfree (i :: c) -> lockfree c.
+Proof. intros H x Hx. apply H. right. exact Hx. Qed.
+Lemma plain_acts l : plain (acts l).
+Proof. intros i Hi. unfold acts in Hi. apply in_map_iff in Hi. destruct Hi as [a [<- _]]. reflexivity. Qed.
+Lemma plain_app a b : plain a -> plain b -> plain (a ++ b).
+Proof. intros Ha Hb i Hi. apply in_app_or in Hi. destruct Hi; [apply Ha|apply Hb]; assumption. Qed.
+Lemma plain_entries p l : plain (map (IEntry p) l).
+Proof. intros i Hi. apply in_map_iff in Hi. destruct Hi as [a [<- _]]. reflexivity. Qed.
+Lemma plain_shards l : plain (map IClearShard l).
+Proof. intros i Hi. apply in_map_iff in Hi. destruct Hi as [a [<- _]]. reflexivity. Qed.
+
+Lemma held_lockfree_head rid i c : is_lock i = false -> (forall p h a, i <> IHandlerStart p h a) -> held rid (i :: c) = heldc rid (i :: c).
+Proof. intros Hl Hs. destruct i; cbn in Hl; try discriminate; try reflexivity. exfalso. eapply Hs. reflexivity. Qed.
+
+(* the shape of a handler call *)
+Lemma call_handler_wfl P p h async obs rest :
+  lockfree rest -> wfl (call_handler P p h async obs ++ rest) /\
+  forall rid, held rid (call_handler P p h async obs ++ rest) = heldc rid rest.
+Proof.
+  intros Lf. unfold call_handler.
+  assert (Bt: h_seq (r_spec h) = true ->
+              block_tail h (([IEnter p h] ++ acts (body_of P (h_body (r_spec h))) ++ [IRecover p h async]) ++ rest)).
+  { intros Hs. exists ([IEnter p h] ++ acts (body_of P (h_body (r_spec h)))), p, async, rest.
+    split; [rewrite <- !app_assoc; reflexivity|]. split; [|split; [exact Lf|exact Hs]].
+    apply plain_app; [intros i [<-|[]]; reflexivity|apply plain_acts]. }
+  assert (Hc: forall rid, heldc rid (([IEnter p h] ++ acts (body_of P (h_body (r_spec h))) ++ [IRecover p h async]) ++ rest)
+                          = (if h_seq (r_spec h) && Nat.eqb (r_id h) rid then 1 else 0) + heldc rid rest).
+  { intros rid. rewrite !heldc_app, (heldc_plain rid (acts _)) by apply plain_acts. cbn. lia. }
+  assert (Lfree: h_seq (r_spec h) = false -> forall pre, lockfree pre ->
+            lockfree (pre ++ ([IEnter p h] ++ acts (body_of P (h_body (r_spec h))) ++ [IRecover p h async]) ++ rest)).
+  { intros _ pre Hpre. apply lockfree_app; [exact Hpre|]. apply lockfree_app; [|exact Lf].
+    apply lockfree_app; [intros i [<-|[]]; reflexivity|]. apply lockfree_app; [apply plain_lockfree, plain_acts|].
+    intros i [<-|[]]; reflexivity. }
+  destruct obs, (h_seq (r_spec h)) eqn:Hs; cbn [app].
+  - split; [apply wfl_start, Bt; reflexivity|]. intros rid. cbn [held]. rewrite Hc. cbn [andb]. destruct (Nat.eqb (r_id h) rid); lia.
+  - split.
+    + apply wfl_free. apply (Lfree eq_refl [IHandlerStart p h async]). intros i [<-|[]]; reflexivity.
+    + intros rid. cbn [held]. rewrite heldc_cons, Hc. cbn. lia.
+  - split; [apply wfl_lock, Bt; reflexivity|]. intros rid. cbn [held]. rewrite Hc. cbn [andb]. destruct (Nat.eqb (r_id h) rid); lia.
+  - split.
+    + apply wfl_free. apply (Lfree eq_refl []). intros i [].
+    + intros rid. specialize (Hc rid). cbn [andb] in Hc. cbn [held app] in *.
+      change (held rid (IEnter p h :: (acts (body_of P (h_body (r_spec h))) ++ [IRecover p h async]) ++ rest))
+        with (heldc rid (IEnter p h :: (acts (body_of P (h_body (r_spec h))) ++ [IRecover p h async]) ++ rest)).
+      cbn [app] in Hc. rewrite Hc. lia.
+Qed.
+
+Lemma after_recover_lockfree cfg p h async panicked : lockfree (after_recover cfg p h async panicked).
+Proof.
+  unfold after_recover. intros i Hi. repeat (apply in_app_or in Hi; destruct Hi as [Hi|Hi]);
+    [destruct (h_seq (r_spec h))|destruct (panicked && c_panic_handler cfg)|destruct (c_obs cfg)|destruct async];
+    cbn in Hi; try contradiction; destruct Hi as [<-|[]]; reflexivity.
+Qed.
+Lemma after_recover_heldc cfg p h async panicked rid :
+  heldc rid (after_recover cfg p h async panicked) = if h_seq (r_spec h) && Nat.eqb (r_id h) rid then 1 else 0.
+Proof.
+  unfold after_recover. rewrite !heldc_app.
+  destruct (h_seq (r_spec h)), (panicked && c_panic_handler cfg), (c_obs cfg), async; cbn; destruct (Nat.eqb (r_id h) rid); reflexivity.
+Qed.
+
+(* dropping a prefix never adds held locks *)
+Lemma unwind_lockfree l p h async r : lockfree l -> unwind l = Some (p, h, async, r) ->
+  lockfree r /\ forall rid, heldc rid r + (if h_seq (r_spec h) && Nat.eqb (r_id h) rid then 1 else 0) <= heldc rid l.
+Proof.
+  revert p h async r. induction l as [|i l IH]; intros p h async r Lf U; [discriminate|].
+  destruct i; cbn [unwind] in U;
+    try (destruct (IH _ _ _ _ (lockfree_tail _ _ Lf) U) as [H1 H2]; split; [exact H1|intros rid; specialize (H2 rid); rewrite heldc_cons; lia]).
+  inversion U; subst. split; [eapply lockfree_tail, Lf|]. intros rid. rewrite heldc_cons. cbn [held_i]. lia.
+Qed.
+
+(* the invariant: every actor's code is well formed, every lock an actor holds is recorded as held by it, and no
+   actor holds a lock twice *)
+Record linv (s : bstate) : Prop := {
+  li_wf : forall a c, assoc_get (code s) a = Some c -> wfl c;
+  li_held : forall a c rid, assoc_get (code s) a = Some c -> 0 < held rid c -> assoc_get (seqlocks s) rid = Some a;
+  li_once : forall a c rid, assoc_get (code s) a = Some c -> held rid c <= 1
+}.
+
+Lemma held_lockfree rid c : lockfree c -> held rid c = heldc rid c.
+Proof.
+  intros Lf. destruct c as [|i c]; [reflexivity|].
+  destruct i; try reflexivity.
+  - destruct c as [|j c]; [reflexivity|]. destruct j; try reflexivity.
+    exfalso. specialize (Lf (ILock h0) (or_intror (or_introl eq_refl))). discriminate.
+  - exfalso. specialize (Lf (ILock h) (or_introl eq_refl)). discriminate.
+Qed.
+
+Lemma heldc_acts rid l : heldc rid (acts l) = 0.
+Proof. apply heldc_plain, plain_acts. Qed.
+Lemma heldc_entries rid p l : heldc rid (map (IEntry p) l) = 0.
+Proof. apply heldc_plain, plain_entries. Qed.
+Lemma heldc_shards rid l : heldc rid (map IClearShard l) = 0.
+Proof. apply heldc_plain, plain_shards. Qed.
+
+Ltac hsimp := repeat first [rewrite heldc_app | rewrite heldc_cons | rewrite heldc_acts | rewrite heldc_entries
+                           | rewrite heldc_shards | rewrite after_recover_heldc];
+              cbn [held_i heldc fold_right].
+
+Ltac lf_tac Lr :=
+  repeat first
+    [ exact Lr
+    | apply lockfree_cons; [reflexivity|]
+    | apply lockfree_app
+    | apply plain_lockfree, plain_acts
+    | apply plain_lockfree, plain_entries
+    | apply plain_lockfree, plain_shards
+    | apply after_recover_lockfree
+    | (intros ? []; fail)
+    | match goal with |- lockfree (if ?b then _ else _) => destruct b end
+    | match goal with |- lockfree (match ?b with _ => _ end) => destruct b end
+    | (let i := fresh in let H := fresh in intros i H; destruct H as [<-|[]]; reflexivity)
+    | (let i := fresh in let H := fresh in intros i H; destruct H) ].
+
+(* generic update: the handler locks are untouched, the stepping actor's new code is well formed and holds no more
+   than before; an optional new actor holds nothing *)
+Lemma linv_upd s a old newc s' (spawn : option (actor * list instr)) :
+  linv s -> assoc_get (code s) a = Some old -> seqlocks s' = seqlocks s ->
+  code s' = assoc_set (match spawn with Some (t, ct) => assoc_set (code s) t ct | None => code s end) a newc ->
+  match spawn with Some (t, ct) => assoc_get (code s) t = None /\ lockfree ct /\ (forall rid, heldc rid ct = 0) /\ t <> a | None => True end ->
+  wfl newc -> (forall rid, held rid newc <= held rid old) -> linv s'.
+Proof.
+  intros [Wf Hh Ho] Ha Hs Hc Hsp Wn Hle.
+  assert (Hget: forall b c, assoc_get (code s') b = Some c ->
+            (b = a /\ c = newc) \/
+            (match spawn with Some (t, ct) => b = t /\ c = ct | None => False end) \/
+            (b <> a /\ assoc_get (code s) b = Some c)).
+  { intros b c Hb. rewrite Hc in Hb. destruct (Nat.eq_dec a b) as [->|N].
+    - rewrite assoc_get_set_same in Hb. inversion Hb. left. auto.
+    - rewrite assoc_get_set_other in Hb by exact N. destruct spawn as [[t ct]|].
+      + destruct (Nat.eq_dec t b) as [->|N2].
+        * rewrite assoc_get_set_same in Hb. inversion Hb. right. left. auto.
+        * rewrite assoc_get_set_other in Hb by exact N2. right. right. split; [congruence|exact Hb].
+      + right. right. split; [congruence|exact Hb]. }
+  split.
+  - intros b c Hb. destruct (Hget b c Hb) as [[-> ->]|[Hs2|[_ Hold]]]; [exact Wn| |eapply Wf; exact Hold].
+    destruct spawn as [[t ct]|]; [|contradiction]. destruct Hs2 as [-> ->]. apply wfl_free. apply Hsp.
+  - intros b c rid Hb Hpos. rewrite Hs. destruct (Hget b c Hb) as [[-> ->]|[Hs2|[_ Hold]]].
+    + apply (Hh a old rid Ha). specialize (Hle rid). lia.
+    + destruct spawn as [[t ct]|]; [|contradiction]. destruct Hs2 as [-> ->]. destruct Hsp as [_ [Lf [Hz _]]].
+      rewrite held_lockfree in Hpos by exact Lf. rewrite Hz in Hpos. lia.
+    + eapply Hh; eauto.
+  - intros b c rid Hb. destruct (Hget b c Hb) as [[-> ->]|[Hs2|[_ Hold]]].
+    + specialize (Hle rid). specialize (Ho a old rid Ha). lia.
+    + destruct spawn as [[t ct]|]; [|contradiction]. destruct Hs2 as [-> ->]. destruct Hsp as [_ [Lf [Hz _]]].
+      rewrite held_lockfree by exact Lf. rewrite Hz. lia.
+    + eapply Ho; eauto.
+Qed.
+
+Lemma upd_pub_seqlocks s p f : seqlocks (upd_pub s p f) = seqlocks s.
+Proof. unfold upd_pub. destruct (assoc_get (pubs s) p); reflexivity. Qed.
+
+Ltac fin_lock L Ha Lr :=
+  eapply (linv_upd _ _ _ _ _ None); [exact L|exact Ha
+    |cbn [cont set_code set_registry seqlocks]; rewrite ?upd_pub_seqlocks; reflexivity
+    |cbn [cont set_code set_registry code]; rewrite ?upd_pub_code; reflexivity
+    |exact I
+    |apply wfl_free; lf_tac Lr
+    |let rid := fresh "rid" in intros rid;
+     rewrite !held_lockfree by (first [assumption | lf_tac Lr]);
+     hsimp;
+     repeat (match goal with
+             | |- context[if ?b then _ else _] => destruct b
+             | |- context[match ?b with _ => _ end] => destruct b
+             end); cbn [heldc held_i fold_right]; lia].
+
+Theorem linv_step P cfg s a s' ls : winv s -> linv s -> mstep P cfg s a = Some (s', ls) -> linv s'.
+Proof.
+  intros WI L H. unfold mstep in H.
+  destruct (assoc_get (code s) a) as [[|i rest]|] eqn:Ha; try discriminate.
+  pose proof (li_wf s L a (i :: rest) Ha) as Wf.
+  assert (Hfresh: assoc_get (code s) (next_actor s) = None /\ next_actor s <> a).
+  { split.
+    - destruct (assoc_get (code s) (next_actor s)) eqn:E; [|reflexivity]. destruct (wi_bound s WI _ _ E). lia.
+    - destruct (wi_bound s WI a _ Ha). lia. }
+  inversion Wf as [c Lf Ec|h c Bt Ec|p0 h async0 c Bt Ec]; subst.
+  - (* lock-free code *)
+    pose proof (lockfree_tail _ _ Lf) as Lr.
+    destruct i; cbn [step_instr] in H.
+    all: try (break_head H; try discriminate; inversion H; subst; clear H; solve [timeout 10 fin_lock L Ha Lr]).
+    + (* IDo *)
+      destruct a0; cbn [step_instr] in H; break_head H; try discriminate; inversion H; subst; clear H;
+        try solve [timeout 10 fin_lock L Ha Lr].
+      * (* AShutdown *)
+        eapply (linv_upd _ _ _ _ _ (Some (next_actor s, [IWaiterDone (next_sid s)]))); [exact L|exact Ha|reflexivity|reflexivity| | |].
+        -- destruct Hfresh. repeat split; auto. intros i [<-|[]]; reflexivity.
+        -- apply wfl_free. lf_tac Lr.
+        -- intros rid. rewrite !held_lockfree by (first [assumption|lf_tac Lr]). hsimp. lia.
+      * (* APanic recovered *)
+        match goal with U : unwind rest = Some (?p, ?h, ?async, ?r) |- _ => destruct (unwind_lockfree rest p h async r Lr U) as [Lr2 Hle] end.
+        eapply (linv_upd _ _ _ _ _ None); [exact L|exact Ha|reflexivity|reflexivity|exact I| |].
+        -- apply wfl_free. apply lockfree_app; [apply after_recover_lockfree|exact Lr2].
+        -- intros rid. rewrite !held_lockfree by (first [assumption|apply lockfree_app; [apply after_recover_lockfree|exact Lr2]]).
+           hsimp. specialize (Hle rid). lia.
+    + (* IDispatch *)
+      break_head H; try discriminate; inversion H; subst; clear H; try solve [timeout 10 fin_lock L Ha Lr].
+      * eapply (linv_upd _ _ _ _ _ (Some (next_actor s, [ITaskStart p h]))); [exact L|exact Ha|reflexivity|reflexivity| | |].
+        -- destruct Hfresh. repeat split; auto. intros i [<-|[]]; reflexivity.
+        -- apply wfl_free. exact Lr.
+        -- intros rid. rewrite !held_lockfree by assumption. hsimp. lia.
+      * destruct (call_handler_wfl P p h false (c_obs cfg) rest Lr) as [W1 W2].
+        eapply (linv_upd _ _ _ _ _ None); [exact L|exact Ha|reflexivity|reflexivity|exact I|exact W1|].
+        intros rid. rewrite W2, held_lockfree by assumption. hsimp. lia.
+    + (* ILock cannot head lock-free code *)
+      exfalso. specialize (Lf (ILock h) (or_introl eq_refl)). discriminate.
+    + (* IUnlock: release *)
+      inversion H; subst; clear H.
+      destruct L as [Wfa Hh Ho].
+      assert (Hmine: assoc_get (seqlocks s) (r_id h) = Some a).
+      { apply (Hh a _ (r_id h) Ha). rewrite held_lockfree by exact Lf. hsimp. rewrite Nat.eqb_refl. lia. }
+      assert (Hget: forall b c, assoc_get (assoc_set (code s) a rest) b = Some c -> (b = a /\ c = rest) \/ (b <> a /\ assoc_get (code s) b = Some c)).
+      { intros b c Hb. destruct (Nat.eq_dec a b) as [->|N]; [rewrite assoc_get_set_same in Hb; inversion Hb; auto|].
+        rewrite assoc_get_set_other in Hb by exact N. right. split; [congruence|exact Hb]. }
+      split; cbn [cont set_code code seqlocks].
+      * intros b c Hb. destruct (Hget b c Hb) as [[-> ->]|[_ Hold]]; [apply wfl_free, Lr|eapply Wfa; exact Hold].
+      * intros b c rid Hb Hpos. destruct (Hget b c Hb) as [[-> ->]|[Nb Hold]].
+        -- rewrite held_lockfree in Hpos by exact Lr.
+           destruct (Nat.eq_dec (r_id h) rid) as [<-|Nr].
+           ++ specialize (Ho a _ (r_id h) Ha). rewrite held_lockfree in Ho by exact Lf. revert Ho. hsimp. rewrite Nat.eqb_refl. lia.
+           ++ rewrite assoc_get_del_other by exact Nr. apply (Hh a _ rid Ha). rewrite held_lockfree by exact Lf. hsimp. lia.
+        -- destruct (Nat.eq_dec (r_id h) rid) as [<-|Nr].
+           ++ pose proof (Hh b c (r_id h) Hold Hpos) as Hb2. rewrite Hmine in Hb2. inversion Hb2. congruence.
+           ++ rewrite assoc_get_del_other by exact Nr. eapply Hh; eauto.
+      * intros b c rid Hb. destruct (Hget b c Hb) as [[-> ->]|[_ Hold]]; [|eapply Ho; eauto].
+        specialize (Ho a _ rid Ha). rewrite held_lockfree in Ho by exact Lf. rewrite held_lockfree by exact Lr. revert Ho. hsimp. lia.
+    + (* ITaskStart *)
+      break_head H; try discriminate; inversion H; subst; clear H; try solve [timeout 10 fin_lock L Ha Lr].
+      destruct (call_handler_wfl P p h true (c_obs cfg) rest Lr) as [W1 W2].
+      eapply (linv_upd _ _ _ _ _ None); [exact L|exact Ha|reflexivity|reflexivity|exact I|exact W1|].
+      intros rid. rewrite W2, held_lockfree by assumption. hsimp. lia.
+  - (* ILock h at the head of a pending block: acquire *)
+    cbn [step_instr] in H. destruct (assoc_get (seqlocks s) (r_id h)) eqn:Efree; [discriminate|]. inversion H; subst; clear H.
+    destruct Bt as [mid [p [async [r [-> [Pm [Lr Hs]]]]]]].
+    assert (Lnew: lockfree (mid ++ IRecover p h async :: r)).
+    { apply lockfree_app; [apply plain_lockfree, Pm|apply lockfree_cons; [reflexivity|exact Lr]]. }
+    destruct L as [Wfa Hh Ho].
+    assert (Hzero: heldc (r_id h) r = 0).
+    { destruct (heldc (r_id h) r) eqn:E; [reflexivity|]. exfalso.
+      assert (Hp: 0 < held (r_id h) (ILock h :: mid ++ IRecover p h async :: r)).
+      { cbn [held]. rewrite heldc_app, heldc_cons, (heldc_plain _ mid Pm). cbn [held_i]. rewrite Hs, Nat.eqb_refl. cbn. lia. }
+      specialize (Hh a _ _ Ha Hp). congruence. }
+    assert (Hget: forall b c, assoc_get (assoc_set (code s) a (mid ++ IRecover p h async :: r)) b = Some c ->
+              (b = a /\ c = mid ++ IRecover p h async :: r) \/ (b <> a /\ assoc_get (code s) b = Some c)).
+    { intros b c Hb. destruct (Nat.eq_dec a b) as [->|N]; [rewrite assoc_get_set_same in Hb; inversion Hb; auto|].
+      rewrite assoc_get_set_other in Hb by exact N. right. split; [congruence|exact Hb]. }
+    split; cbn [cont set_code code seqlocks].
+    + intros b c Hb. destruct (Hget b c Hb) as [[-> ->]|[_ Hold]]; [apply wfl_free, Lnew|eapply Wfa; exact Hold].
+    + intros b c rid Hb Hpos. destruct (Hget b c Hb) as [[-> ->]|[Nb Hold]].
+      * destruct (Nat.eq_dec (r_id h) rid) as [<-|Nr]; [apply assoc_get_set_same|].
+        rewrite assoc_get_set_other by exact Nr. apply (Hh a _ rid Ha).
+        rewrite held_lockfree in Hpos by exact Lnew. cbn [held].
+        revert Hpos. rewrite !heldc_app, !heldc_cons. cbn [held_i]. apply Nat.eqb_neq in Nr. rewrite Nr. rewrite andb_false_r. lia.
+      * destruct (Nat.eq_dec (r_id h) rid) as [<-|Nr].
+        -- pose proof (Hh b c (r_id h) Hold Hpos). congruence.
+        -- rewrite assoc_get_set_other by exact Nr. eapply Hh; eauto.
+    + intros b c rid Hb. destruct (Hget b c Hb) as [[-> ->]|[_ Hold]]; [|eapply Ho; eauto].
+      rewrite held_lockfree by exact Lnew. rewrite heldc_app, heldc_cons, (heldc_plain _ mid Pm). cbn [held_i]. rewrite Hs. cbn [andb].
+      destruct (Nat.eqb (r_id h) rid) eqn:Er.
+      * apply Nat.eqb_eq in Er. subst rid. rewrite Hzero. lia.
+      * specialize (Ho a _ rid Ha). cbn [held] in Ho. rewrite heldc_app, heldc_cons, (heldc_plain _ mid Pm) in Ho.
+        cbn [held_i] in Ho. rewrite Er, andb_false_r in Ho. lia.
+  - (* IHandlerStart before a pending block *)
+    cbn [step_instr] in H. inversion H; subst; clear H.
+    eapply (linv_upd _ _ _ _ _ None); [exact L|exact Ha|reflexivity|reflexivity|exact I|apply wfl_lock, Bt|].
+    intros rid. cbn [held]. lia.
+Qed.
+
+Lemma linv_init threads : linv (init_state threads).
+Proof.
+  assert (Hin: forall a c, assoc_get (code (init_state threads)) a = Some c -> exists l, c = acts l).
+  { unfold init_state. cbn [code]. intros a c H.
+    assert (Hi: In (a, c) (combine (seq 0 (length threads)) (map acts threads))).
+    { clear -H. induction (combine (seq 0 (length threads)) (map acts threads)) as [|[k v] r IH]; [discriminate|].
+      cbn in H. destruct (Nat.eqb k a) eqn:E; [apply Nat.eqb_eq in E; inversion H; subst; left; reflexivity|right; apply IH, H]. }
+    apply in_combine_r in Hi. apply in_map_iff in Hi. destruct Hi as [l [<- _]]. eauto. }
+  split.
+  - intros a c H. destruct (Hin a c H) as [l ->]. apply wfl_free, plain_lockfree, plain_acts.
+  - intros a c rid H Hp. destruct (Hin a c H) as [l ->].
+    rewrite held_lockfree in Hp by apply plain_lockfree, plain_acts. rewrite heldc_acts in Hp. lia.
+  - intros a c rid H. destruct (Hin a c H) as [l ->].
+    rewrite held_lockfree by apply plain_lockfree, plain_acts. rewrite heldc_acts. lia.
+Qed.
+
+Lemma linv_run P cfg : forall sched s, winv s -> linv s -> linv (fst (run P cfg s sched)).
+Proof.
+  induction sched as [|a r IH]; intros s I L; cbn [run]; [exact L|].
+  destruct (mstep P cfg s a) as [[s' ls]|] eqn:E.
+  - specialize (IH s' (winv_step P cfg s a s' ls I E) (linv_step P cfg s a s' ls I L E)). destruct (run P cfg s' r). exact IH.
+  - apply IH; assumption.
+Qed.
+
+(* C07_mutex: under every schedule of every program, two different actors never hold the lock of the same
+   Sequential registration - and an actor is inside the body of a Sequential handler only while it holds it:
+   between its IEnter and its deferred unlock its code contains that handler's recover marker or unlock *)
+Theorem seq_mutex P cfg s : reachable P cfg s ->
+  forall a b ca cb rid, assoc_get (code s) a = Some ca -> assoc_get (code s) b = Some cb ->
+    0 < held rid ca -> 0 < held rid cb -> a = b.
+Proof.
+  intros [threads [sched ->]] a b ca cb rid Ha Hb Pa Pb.
+  pose proof (linv_run P cfg sched _ (winv_init threads) (linv_init threads)) as L.
+  pose proof (li_held _ L a ca rid Ha Pa) as H1. pose proof (li_held _ L b cb rid Hb Pb) as H2. congruence.
+Qed.
+
+Theorem seq_lock_discipline P cfg s : reachable P cfg s -> linv s.
+Proof. intros [threads [sched ->]]. apply linv_run; [apply winv_init|apply linv_init]. Qed.
+
+(* running the body of a Sequential handler means holding its lock: right after the entry step the actor's code
+   still contains the recover marker of that invocation *)
+Theorem enter_holds_lock P cfg s a p h rest s' ls :
+  h_seq (r_spec h) = true -> lockfree (IEnter p h :: rest) ->
+  (exists mid async r, rest = mid ++ IRecover p h async :: r /\ plain mid) ->
+  step_instr P cfg s a (IEnter p h) rest = Some (s', ls) ->
+  exists c, assoc_get (code s') a = Some c /\ 0 < held (r_id h) c.
+Proof.
+  intros Hs Lf [mid [async [r [-> Pm]]]] H. cbn [step_instr] in H. inversion H; subst; clear H.
+  eexists. split; [apply code_cont|].
+  rewrite held_lockfree by (eapply lockfree_tail, Lf).
+  rewrite heldc_app, heldc_cons, (heldc_plain _ mid Pm). cbn [held_i]. rewrite Hs, Nat.eqb_refl. cbn. lia.
+Qed.
